@@ -2,5 +2,7 @@ SPECIFICATION MCSpec
 CONSTANTS MaxLen = 3
           Cands = "abstract3"
           Reader = "always_attr"
-INVARIANTS ReadBack CursorExact TxNormalize AllConsumed WireOK NoStuck ExactNormalForm SelfDelimiting
+          MaxKeep = 0
+          Encoder = "fresh"
+INVARIANTS ReadBack CursorExact TxNormalize AllConsumed WireOK KeptWire KeptIntact NoStuck ExactNormalForm SelfDelimiting
 CHECK_DEADLOCK FALSE
